@@ -131,12 +131,23 @@ def run_impl(case):
     from bluebonnet.flow import FlowProperties, IdealReservoir, SinglePhaseReservoir
     from bluebonnet.flow.flowproperties import FlowPropertiesSimple
     out = {}
-    t = np.asarray(case["times"], float)
+    t = np.array(case["times"], float)     # the caller's own array (a copy of the case's: checks compare it with the case afterwards)
+    out["time_arg"] = t
+    # the node count as the caller holds it: a Python int, or a (narrow) NumPy integer scalar taken from an array / a table column
+    nx_arg = np.dtype(case["nx_type"]).type(case["nx"]) if case.get("nx_type") else case["nx"]
     try:
         with warnings.catch_warnings():
             warnings.simplefilter("ignore")
             if case["kind"] == "ideal":
-                res = IdealReservoir(case["nx"], case["pf"], case["pi"], None)
+                if case.get("reassign"):
+                    # one object used for a second configuration: built and run with other settings first, then its public
+                    # (dataclass) fields are re-assigned - what a refinement loop in a notebook does
+                    res = IdealReservoir(case["nx"] + 7, 0.5 * (case["pf"] + case["pi"]), case["pi"] * 1.25, None)
+                    res.simulate(np.linspace(0.0, 0.3, 5))
+                    res.recovery_factor()
+                    res.nx, res.pressure_fracface, res.pressure_initial = nx_arg, case["pf"], case["pi"]
+                else:
+                    res = IdealReservoir(nx_arg, case["pf"], case["pi"], None)
                 res.simulate(t)
             else:
                 tb = {k: np.array(v, float) for k, v in case["table"].items()}
@@ -151,7 +162,15 @@ def run_impl(case):
                 out["m_i"] = float(fp.m_i)
                 sched = case.get("sched")
                 pf0 = case["pf"]
-                res = SinglePhaseReservoir(case["nx"], pf0, case["pi"], fp)
+                if case.get("reassign"):
+                    p_col = np.asarray(tb["pressure"], float)
+                    pi_other = float(0.5 * (case["pi"] + p_col.max()))
+                    res = SinglePhaseReservoir(case["nx"] + 7, 0.5 * (pf0 + case["pi"]), pi_other, cls({k: np.array(v, float) for k, v in case["table"].items()}, pi_other))
+                    res.simulate(np.linspace(0.0, 0.3, 5))
+                    res.recovery_factor()
+                    res.nx, res.pressure_fracface, res.pressure_initial, res.fluid = nx_arg, pf0, case["pi"], fp
+                else:
+                    res = SinglePhaseReservoir(nx_arg, pf0, case["pi"], fp)
                 if sched is None:
                     res.simulate(t)
                 else:
@@ -361,10 +380,22 @@ def gen_cases(rng, n, quick=True, kinds=("single", "ideal"), nx_choices=None, nt
         grid = grids[k // len(kinds) % len(grids)]
         tmax = float(10 ** rng.uniform(-2, 1))
         times = time_grid(grid, nt, tmax, rng)
+        # every fifth case (both kinds in turn) passes the node count as the narrowest NumPy integer type that holds it, signed and
+        # unsigned alternating (uint8 for 30, int8 for 60 ..., int16 / uint16 for the large counts of the thorough tier)
+        nx_type = None
+        if k % 5 in (3, 4) and k % 10 in (3, 4, 8):
+            nx = int(sorted(nx_choices)[-1 - (k // 5) % 2]) if len(nx_choices) > 1 else nx    # the larger node counts, in turn
+            fits = [tname for tname in (("int8", "uint8", "int16", "uint16") if k % 10 != 8 else ("uint8", "uint16", "int16"))
+                    if np.iinfo(tname).max >= max(nx, 3)]
+            nx_type = fits[0] if fits else "int32"
         if kind == "ideal":
             pi = float(rng.uniform(1000, 12000))
             ratio = float(rng.choice([0.0125, 0.3, 0.875, 0.99875, rng.uniform(0.01, 0.99)]))
             cases.append(dict(kind="ideal", pi=pi, pf=pi * ratio, nx=max(nx, 3), times=times, grid=grid))
+            if nx_type:
+                cases[-1]["nx_type"] = nx_type
+            if k % 7 in (2, 6):
+                cases[-1]["reassign"] = True
             continue
         tk = TABLE_KINDS[k // 2 % len(TABLE_KINDS)]
         tb = make_table(tk, rng, quick)
@@ -374,6 +405,10 @@ def gen_cases(rng, n, quick=True, kinds=("single", "ideal"), nx_choices=None, nt
         ratio = float(rng.choice([0.0125, 0.3, 0.875, 0.99875, rng.uniform(0.01, 0.99)]))
         pf = max(float(p[0]), pi * ratio)
         case = dict(kind="single", table=tb, table_kind=tk, pi=pi, pf=pf, nx=nx, times=times, grid=grid)
+        if nx_type:
+            case["nx_type"] = nx_type
+        if k % 7 == 5:
+            case["reassign"] = True
         if k % 8 in (2, 6) and k % 16 != 2:
             case["reverse_rows"] = True
         if rng.random() < sched_prob:
